@@ -526,3 +526,27 @@ func (c *Ctx) RegionCallsTo(fn, target *ssa.Function) []ssa.CallInstruction {
 	}
 	return out
 }
+
+// InspectWithFresh is ast.Inspect over node and, transitively, over the bodies of the fresh functions (IsFresh) it
+// calls: what an arm of a switch does, including the part of it that has been extracted into a helper.
+func (c *Ctx) InspectWithFresh(info *types.Info, node ast.Node, f func(ast.Node) bool) {
+	seen := map[*ast.FuncDecl]bool{}
+	var visit func(n ast.Node, depth int)
+	visit = func(n ast.Node, depth int) {
+		ast.Inspect(n, func(x ast.Node) bool {
+			if x == nil {
+				return true
+			}
+			if call, ok := x.(*ast.CallExpr); ok && depth < 4 {
+				if fo := CalleeObj(info, call); fo != nil && c.freshFuncs[fo] {
+					if fd := c.declIdx[fo]; fd != nil && fd.Body != nil && !seen[fd] {
+						seen[fd] = true
+						visit(fd.Body, depth+1)
+					}
+				}
+			}
+			return f(x)
+		})
+	}
+	visit(node, 0)
+}
